@@ -1189,6 +1189,7 @@ func ruleB2(c *Ctx, id string) {
 		fn      *ssa.Function
 	}
 	nT := 0
+	present := map[string]bool{}
 	for _, fn := range P.RepoFuncs("nfs") {
 		if fn.Blocks == nil {
 			continue
@@ -1217,6 +1218,7 @@ func ruleB2(c *Ctx, id string) {
 				last := path[len(path)-1]
 				if w, isT := table[holder+"."+last]; isT && len(path) == 2 {
 					nT++
+					present[holder+"."+last] = true
 					R.Analysed[FuncName(fn)] = true
 					terms := provenance(st.Val, stop)
 					good, bad := 0, ""
@@ -1292,6 +1294,17 @@ func ruleB2(c *Ctx, id string) {
 			R.Check(ok, id, FuncName(ownerOf(fn))+"|"+h+": handle and attributes of one object", P.Pos(o.pos), "the handle returned and the attributes returned with it are taken from the same inode", "one inode object", why+": the client caches attributes (type, size, file id) under a handle they do not belong to")
 		}
 	}
+	// every data-bearing field is filled at all (a reply whose Data or Count is never stored carries nothing)
+	{
+		var keys []string
+		for k := range table {
+			keys = append(keys, k)
+		}
+		sort.Strings(keys)
+		for _, k := range keys {
+			R.Check(present[k], id, "reply|"+k+" is filled", "?", "the handler stores the field", "stored", "no store to "+k+" in package nfs: the reply carries the zero value - no data, count 0 - with status OK")
+		}
+	}
 	// how much is read: the request's count for a file, the link's size for a symbolic link - nothing else.
 	// READLINK returns the whole target (SYMLINK accepts targets up to wtmax; a bound on the way - rtmax, a page -
 	// cuts the target short with status OK); a READ returns at most what was asked for (a count replaced by the
@@ -1356,6 +1369,107 @@ func ruleB2(c *Ctx, id string) {
 				}
 				leaf(as[3], ci.Block())
 				R.Check(ok, id, FuncName(ownerOf(fn))+"|reads what was asked for, a link in full", P.Pos(ci.Pos()), "the count handed to Inode.Read is the caller's count, or - on the Kind == NF3LNK side only - the link's size", "request count / link size", "the count is "+why+": a link target is returned cut short with status OK, or a READ returns more than the count it was given")
+			}
+		}
+		// READLINK asks for the link's size: with READLINK's own arguments, the count that reaches Inode.Read can be
+		// the size (READLINK hands a placeholder 0 down: without the symbolic-link arm it reads nothing)
+		if rl := P.Func("nfs.(*Nfs).NFSPROC3_READLINK"); rl != nil {
+			found, nCalls := false, 0
+			for _, sc := range scopesOf(rl) {
+				for _, ci := range P.CallsIn(sc.Fn, funcIs(V.InodeRead)) {
+					as := fullArgs(ci)
+					if len(as) < 4 {
+						continue
+					}
+					nCalls++
+					k0, is0 := constInt(sc.S.resolve(stripConv(as[2])))
+					R.Check(is0 && k0 == 0, id, "NFSPROC3_READLINK|reads the target from its start", P.Pos(ci.Pos()), "the offset READLINK's read is given is 0", "offset 0", "READLINK reads the target from another offset than 0: the first bytes of the target are missing")
+					seen := map[ssa.Value]bool{}
+					var leaf func(v ssa.Value)
+					leaf = func(v ssa.Value) {
+						v = stripConv(v)
+						if seen[v] {
+							return
+						}
+						seen[v] = true
+						if ph, isP := v.(*ssa.Phi); isP {
+							for _, e := range ph.Edges {
+								leaf(e)
+							}
+							return
+						}
+						if n, fl, _, isElem := loadedField(v); !isElem && n == V.Inode && fl == "Size" {
+							found = true
+						}
+					}
+					leaf(as[3])
+				}
+			}
+			R.Check(found && nCalls > 0, id, "NFSPROC3_READLINK|asks for the link's size", P.Pos(rl.Pos()), "the count READLINK's read is given can be the link's size", "Size among the values of the count", "READLINK reads with the placeholder count it hands down (0): the target returned is empty, status OK")
+		}
+		// READ is for regular files, READLINK for symbolic links: the read is on the side of a comparison of the
+		// object's kind with the kind the procedure is about (a constant, or a parameter bound to constants)
+		for _, fn := range P.RepoFuncs("nfs") {
+			if fn.Blocks == nil {
+				continue
+			}
+			for _, ci := range P.CallsIn(fn, funcIs(V.InodeRead)) {
+				as := fullArgs(ci)
+				recv := stripConv(as[0])
+				g := guardedBy(fn, ci.Block(), func(cd Cond) (bool, bool) {
+					if cd.Y == nil {
+						return false, false
+					}
+					x, y := cd.X, cd.Y
+					if n2, f2, _, _ := loadedField(y); n2 == V.Inode && f2 == "Kind" {
+						x, y = y, x
+					}
+					n1, f1, b1, _ := loadedField(x)
+					if n1 != V.Inode || f1 != "Kind" || stripConv(b1) != recv {
+						return false, false
+					}
+					yv := stripConv(y)
+					_, isK := constInt(yv)
+					if pm, isP := yv.(*ssa.Parameter); isP && !isK {
+						// a kind handed down by the callers: every call site passes a constant
+						idx := -1
+						for i, q := range fn.Params {
+							if q == pm {
+								idx = i
+							}
+						}
+						isK = idx >= 0
+						nSites := 0
+						for _, cs := range P.CallersOf(fn) {
+							if !IsRepoFunc(cs.Caller) || strings.HasSuffix(P.Pos(cs.Instr.Pos()), "_test.go") {
+								continue
+							}
+							nSites++
+							cc := fullArgs(cs.Instr)
+							if idx >= len(cc) {
+								isK = false
+								continue
+							}
+							if _, isC := constInt(stripConv(cc[idx])); !isC {
+								isK = false
+							}
+						}
+						if nSites == 0 {
+							isK = false
+						}
+					}
+					if !isK {
+						return false, false
+					}
+					switch cd.Op {
+					case token.EQL:
+						return true, true
+					case token.NEQ:
+						return true, false
+					}
+					return false, false
+				})
+				R.Check(g, id, FuncName(ownerOf(fn))+"|reads an object of the procedure's kind", P.Pos(ci.Pos()), "the read lies on the side where the object's kind equals the kind the procedure is about", "Kind == <the procedure's kind>", "the read is not confined to the kind of object the procedure is about: READ returns the raw entries of a directory or the target of a link as file data, READLINK the bytes of a regular file")
 			}
 		}
 		R.Check(nR > 0, id, "inventory|reads of file content in the handlers", "?", "the handlers read through Inode.Read", fmt.Sprintf("%d reads", nR), "no Inode.Read call in package nfs")
@@ -1689,8 +1803,11 @@ func mutatesInode(c *Ctx, f *ssa.Function, d int) bool {
 	if f == nil {
 		return false
 	}
-	if f == c.V.InodeWrite || f == c.V.WriteInode || f == c.V.Resize {
+	if f == c.V.InodeWrite || f == c.V.Resize {
 		return true
+	}
+	if f == c.V.WriteInode || f == c.V.MkFattr {
+		return false // logging the inode / reading its attributes changes nothing in it
 	}
 	if !IsRepoFunc(f) || f.Blocks == nil || d > 6 {
 		return false
